@@ -30,7 +30,7 @@ which will automatically advertise the correct signature.
 
 from functools import partial, update_wrapper, wraps
 
-from sigtools import _util, signatures, specifiers
+from sigtools import _util, _signatures, signatures, specifiers
 
 class Combination(object):
     """Creates a callable that passes the first argument through each
@@ -218,8 +218,13 @@ class _Wrapped(object):
     __signature__ = specifiers.as_forged
 
     def _sigtools__forger(self, obj):
-        return specifiers.forwards(
-            self.func, self.__wrapped__,
+        wrapped_sig = specifiers.signature(self.__wrapped__)
+        # self.func is a partial object over the wrapper function, which is
+        # what calls the wrapped function: that makes two levels
+        wrapped_sig = wrapped_sig.replace(sources=_signatures.copy_sources(
+            wrapped_sig.sources, increase=True))
+        return signatures.forwards(
+            signatures.signature(self.func), wrapped_sig,
             *self.decorator.f_args, **self.decorator.f_kwargs)
 
     def __call__(self, *args, **kwargs):
